@@ -74,6 +74,10 @@ def main():
                 row['checks'] = results
                 row['caught'] = any(v['rc'] == 1 for v in results.values())
             prev = meta.get('evaluation', {})
+            if not row.get('patch_applies') and prev.get('patch_applies'):
+                # later fix: commits in /repo touched the same lines: the evaluation made at the commit the change was written for stands
+                prev['note'] = f"patch no longer applies at {row['repo_commit']}; evaluation kept from {prev.get('repo_commit')}"
+                row = prev
             if 'suite_with_patch' not in row and 'suite_with_patch' in prev:
                 row['suite_with_patch'] = prev['suite_with_patch']      # confirmed in an earlier evaluation of the same patch
             meta['evaluation'] = row
